@@ -208,14 +208,14 @@ def native_replay(repo, name, vals, timeout=2400):
     return dict(reproduced=(r.returncode != 0), output=out[-1500:], panicked=panicked)
 
 
-def run_bounded(repo, prop, timeout=1800):
+def run_bounded(repo, prop, timeout=1800, tier="quick"):
     """Engine B: bounded native checks (kani/harness/bounded/). Returns dict(status, cases, checks, failures, bound)."""
     t0 = time.time()
     exe, note = build_runner(repo)
     if exe is None:
         return dict(status="undecided", reason=note, harness="bounded:" + prop)
     try:
-        r = subprocess.run([exe, "bounded", prop], capture_output=True, text=True, timeout=timeout)
+        r = subprocess.run([exe, "bounded", prop], capture_output=True, text=True, timeout=timeout, env=dict(os.environ, VERIF_TIER=tier))
     except subprocess.TimeoutExpired:
         return dict(status="undecided", reason="bounded run timed out", harness="bounded:" + prop)
     out = r.stdout
